@@ -143,6 +143,12 @@ def gen(rng, n):
                 c["aug"] = rng.random() < 0.35      # written as an augmented assignment: I += x (same meaning)
             elif op == "round":
                 c["n"] = rng.randint(0, 12)
+                if rng.random() < 0.2:
+                    # rounding to tens / hundreds (a negative digit count), of integer bounds as well
+                    c["n"] = rng.choice([-1, -2])
+                    if rng.random() < 0.6:
+                        lo_ = rng.randint(-300, 300)
+                        c["a"], c["b"] = lo_, lo_ + rng.randint(0, 400)
         else:
             op = rng.choice(ANGLE_OPS)
             a, b = angle_itv(rng)
@@ -427,6 +433,8 @@ def corr(ctx, cases):
     for c in cases:
         if near_boundary(c):
             continue
+        if c["op"] == "round" and c["n"] < 0:
+            continue                                  # the model's digit count is a natural number: oracle only
         o = observe(c)
         if o[0] == "exc" and o[1].startswith("ctor:"):
             continue
